@@ -210,20 +210,34 @@ Fixpoint project (fs : list nat) (h : list event) : list aev :=
 Definition stream_cfg (L tmask : N) (e : sentry) (ak : akind) : scfg :=
   {| s_kind := ak; s_delta := delta_of tmask (e_ikind e); s_limit := L; s_filter := e_filter e |}.
 
-(** What collection number [n] must report: one metric per non-drop stream that has a point. *)
-Definition expected_metrics (L tmask : N) (vs : list view) (is : list inst) (h : list event) (n : nat) : list metric :=
+(** What every non-drop stream must report at each collection: (entry, kind, configuration,
+    the history the stream sees, required points per collection). *)
+Definition srun := (sentry * akind * scfg * list aev * list points)%type.
+
+Definition stream_runs (L tmask : N) (vs : list view) (is : list inst) (h : list event) : list srun :=
   flat_map (fun sf : sentry * list nat =>
               let (e, fs) := sf in
               match e_kind e with
               | None => []                        (* drop aggregation reports nothing *)
               | Some ak =>
                   let c := stream_cfg L tmask e ak in
-                  match nth n (expected_run c (project fs h)) [] with
-                  | [] => []
-                  | pts => [(e_name e, meta_of ak (s_delta c), pts)]
-                  end
+                  let ph := project fs h in
+                  [(e, ak, c, ph, expected_run c ph)]
               end)
            (spec_streams vs is).
+
+(** What collection number [n] must report: one metric per stream that has a point. *)
+Definition metrics_at (runs : list srun) (n : nat) : list metric :=
+  flat_map (fun r : srun =>
+              let '(e, ak, c, _, ps) := r in
+              match nth n ps [] with
+              | [] => []
+              | pts => [(e_name e, meta_of ak (s_delta c), pts)]
+              end)
+           runs.
+
+Definition expected_metrics (L tmask : N) (vs : list view) (is : list inst) (h : list event) (n : nat) : list metric :=
+  metrics_at (stream_runs L tmask vs is h) n.
 
 Definition is_hist_tag (m : N) : bool := let t := m mod 10 in (t =? 2) || (t =? 3).
 
@@ -233,20 +247,21 @@ Definition metric_eqb_gen (relax : bool) (a b : metric) : bool :=
   points_eqb_gen (relax && is_hist_tag (snd (fst a))) (snd a) (snd b).
 Definition metric_eqb := metric_eqb_gen false.
 
-Fixpoint collects_ok (relax : bool) (L tmask : N) (vs : list view) (is : list inst) (h : list event) (n : nat)
-         (obs : list (list metric)) : bool :=
+Fixpoint collects_ok (relax : bool) (runs : list srun) (n : nat) (obs : list (list metric)) : bool :=
   match obs with
   | [] => true
-  | o :: r => perm_eqb (metric_eqb_gen relax) (expected_metrics L tmask vs is h n) o
-              && collects_ok relax L tmask vs is h (S n) r
+  | o :: r => perm_eqb (metric_eqb_gen relax) (metrics_at runs n) o && collects_ok relax runs (S n) r
   end.
 
 Definition count_collects (h : list event) : nat :=
   length (filter (fun e => match e with ECollect => true | _ => false end) h).
 
+Definition runs_ok (relax : bool) (runs : list srun) (h : list event) (obs : list (list metric)) : bool :=
+  Nat.eqb (length obs) (count_collects h) && collects_ok relax runs 0 obs.
+
 Definition spec_ok_gen (relax : bool) (L tmask : N) (vs : list view) (is : list inst) (h : list event)
            (obs : list (list metric)) : bool :=
-  Nat.eqb (length obs) (count_collects h) && collects_ok relax L tmask vs is h 0 obs.
+  runs_ok relax (stream_runs L tmask vs is h) h obs.
 Definition spec_ok := spec_ok_gen false.
 
 (** ** Observable sums reported with delta temporality
@@ -268,18 +283,39 @@ Definition presum_conserved_b (c : scfg) (h : list aev) (ps : list points) : boo
   negb (is_presum_delta c) || presum_conserved_seq c [] (windows c h) ps.
 
 (** The same clause for every stream of a pipeline whose reports are the required ones. *)
+Definition runs_presum_ok (runs : list srun) : bool :=
+  forallb (fun r : srun => let '(_, _, c, ph, ps) := r in presum_conserved_b c ph ps) runs.
+
 Definition pipeline_presum_ok (L tmask : N) (vs : list view) (is : list inst) (h : list event) : bool :=
-  forallb (fun sf : sentry * list nat =>
-             let (e, fs) := sf in
-             match e_kind e with
-             | None => true
-             | Some ak =>
-                 let c := stream_cfg L tmask e ak in
-                 presum_conserved_b c (project fs h) (expected_run c (project fs h))
-             end)
-          (spec_streams vs is).
+  runs_presum_ok (stream_runs L tmask vs is h).
 
 (** Coarser clause checkers on a whole observation, independent of view resolution:
     every reported metric respects the limit. *)
 Definition obs_at_most_b (L : N) (obs : list (list metric)) : bool :=
   forallb (fun ms => forallb (fun m : metric => at_most_b L (snd m)) ms) obs.
+
+(** * Readings used in the theorem statements *)
+
+(** The values measured for exactly the (filtered) attribute set [a]. *)
+Definition own_vals (c : scfg) (w : window) (a : aset) : list Z :=
+  map snd (filter (fun p => aset_eqb (fst p) a) (filtered c w)).
+
+(** The values whose (filtered) set is the overflow set itself or is not among the kept ones. *)
+Definition overflow_vals (c : scfg) (w : window) : list Z :=
+  let fw := filtered c w in
+  map snd (filter (fun p => aset_eqb (fst p) overflow_set || negb (amem (fst p) (kept (s_limit c) (map fst fw)))) fw).
+
+Definition opt_summ (k : akind) (vs : list Z) : option point :=
+  match vs with [] => None | _ => Some (summ k vs) end.
+
+(** "the first L-1 distinct sets keep their identity and every further measurement is
+    aggregated under the single otel.metric.overflow=true set" *)
+Definition keep_identity (c : scfg) (w : window) (pts : points) : Prop :=
+  let K := kept (s_limit c) (map fst (filtered c w)) in
+  (forall a, In a K -> a <> overflow_set -> lookup a pts = Some (summ (s_kind c) (own_vals c w a))) /\
+  (forall k, In k (map fst pts) -> In k K \/ k = overflow_set) /\
+  lookup overflow_set pts = opt_summ (s_kind c) (overflow_vals c w).
+
+(** "reports each measurement under its filtered attribute set, adding together streams that become identical" *)
+Definition filter_merged (c : scfg) (w : window) (pts : points) : Prop :=
+  NoDup (map fst pts) /\ forall k, lookup k pts = opt_summ (s_kind c) (own_vals c w k).
